@@ -60,8 +60,24 @@ pub enum SoakOp {
     FailedDecode,
 }
 
+/// An ordinary, successful operation that leaves a thread "warm" (large
+/// buffers grown, caches filled) before it goes idle.
+#[derive(Clone, Copy, Debug, PartialEq, Eq, Serialize, Deserialize)]
+pub enum Warm {
+    /// `AVP::write` of a Host Name of this many octets
+    BigAvp(u16),
+    /// a control message with this many ordinary AVPs, encoded and decoded
+    BigControl(u8),
+    /// hide and reveal of a Host Name of this many octets
+    BigHide(u16),
+    Nothing,
+}
+
 #[derive(Clone, Debug, PartialEq, Eq, Serialize, Deserialize)]
 pub enum Env {
+    /// a successful operation, then the thread is idle for `secs` seconds of
+    /// SIMULATED time (the process's clock jumps forward), then the case
+    AfterIdle { warm: Warm, secs: u32 },
     After(Poison),
     Unwinding,
     AfterThenUnwinding(Poison),
@@ -78,6 +94,7 @@ impl Env {
                 "inside a destructor while the thread unwinds, right after a refused operation on the same thread ({p:?})"
             ),
             Env::AfterMany { op, count } => format!("after {count} repetitions of {op:?} on the same thread"),
+            Env::AfterIdle { warm, secs } => format!("after {warm:?} and then {secs} s without any call (simulated clock jump)"),
         }
     }
 }
@@ -300,10 +317,93 @@ pub fn in_env<R>(env: Option<&Env>, f: impl FnOnce() -> R) -> R {
             run_soak(*op, *count);
             f()
         }
+        Some(Env::AfterIdle { warm, secs }) => {
+            run_warm(*warm);
+            clock_jump(*secs as u64 * 1_000_000_000);
+            f()
+        }
     }
 }
 
+pub fn run_warm(w: Warm) {
+    let rv = types::RandomVector::from([3u8, 1, 4, 1]);
+    let _ = guard(|| match w {
+        Warm::BigAvp(n) => {
+            let mut wr = VecWriter::new();
+            host_name(n as usize).write(&mut wr);
+        }
+        Warm::BigControl(n) => {
+            let mut wr = VecWriter::new();
+            control(ordinary_avps(n as usize)).write(&mut wr);
+            let mut r = SliceReader::from(&wr.data[..]);
+            let _ = Message::<&[u8]>::try_read(&mut r);
+        }
+        Warm::BigHide(n) => {
+            let h = host_name(n as usize).hide(b"warm-secret", &rv, &[0u8; 7], &[0u8; 16]);
+            let _ = h.reveal(b"warm-secret", &rv);
+        }
+        Warm::Nothing => {}
+    });
+}
+
+// ---------------------------------------------------------------------------
+// The clock seam
+// ---------------------------------------------------------------------------
+//
+// rl2tp reads no clock today; a change that makes it read one (an idle
+// timeout on a scratch buffer, an expiring memo) must still meet the
+// simulator's clock and not the machine's. The executable therefore
+// defines `clock_gettime` itself: every reading of CLOCK_MONOTONIC /
+// CLOCK_REALTIME / CLOCK_BOOTTIME in the process, std::time included, is the
+// kernel's reading plus an offset that only `clock_jump` moves. Jumps happen
+// in worker / exec child processes only (the parent's watchdogs keep real
+// time; the minimiser never runs a jumping case in-process).
+
+static CLOCK_OFFSET_NS: std::sync::atomic::AtomicU64 = std::sync::atomic::AtomicU64::new(0);
+
+/// # Safety
+/// Same contract as the C library's `clock_gettime`.
+#[no_mangle]
+pub unsafe extern "C" fn clock_gettime(clk: libc::clockid_t, ts: *mut libc::timespec) -> libc::c_int {
+    let r = libc::syscall(libc::SYS_clock_gettime, clk as libc::c_long, ts) as libc::c_int;
+    if r == 0 && !ts.is_null() && matches!(clk, libc::CLOCK_MONOTONIC | libc::CLOCK_REALTIME | libc::CLOCK_BOOTTIME | libc::CLOCK_MONOTONIC_RAW | libc::CLOCK_MONOTONIC_COARSE | libc::CLOCK_REALTIME_COARSE) {
+        let off = CLOCK_OFFSET_NS.load(std::sync::atomic::Ordering::Relaxed);
+        if off != 0 {
+            let t = &mut *ts;
+            let ns = t.tv_nsec as u64 + off % 1_000_000_000;
+            t.tv_sec += (off / 1_000_000_000) as libc::time_t + (ns / 1_000_000_000) as libc::time_t;
+            t.tv_nsec = (ns % 1_000_000_000) as libc::c_long;
+        }
+    }
+    r
+}
+
+/// Move the process's clock forward.
+pub fn clock_jump(ns: u64) {
+    CLOCK_OFFSET_NS.fetch_add(ns, std::sync::atomic::Ordering::Relaxed);
+}
+
+pub fn clock_offset_ns() -> u64 {
+    CLOCK_OFFSET_NS.load(std::sync::atomic::Ordering::Relaxed)
+}
+
+/// Does this environment move the clock?
+pub fn jumps_clock(e: &Env) -> bool {
+    matches!(e, Env::AfterIdle { .. })
+}
+
 pub fn draw_env(rng: &mut Rng) -> Env {
+    if rng.chance(1, 12) {
+        let warm = match rng.below(4) {
+            0 => Warm::BigAvp(*rng.pick(&[300u16, 600, 1000, 1017])),
+            1 => Warm::BigControl(*rng.pick(&[8u8, 40, 120])),
+            2 => Warm::BigHide(*rng.pick(&[100u16, 500, 1000])),
+            _ => Warm::Nothing,
+        };
+        // a second, the usual timeouts, a day, a month, 2^32 ms
+        let secs = *rng.pick(&[1u32, 5, 6, 30, 60, 61, 300, 3600, 86_400, 2_592_000, 4_294_968]);
+        return Env::AfterIdle { warm, secs };
+    }
     match rng.below(40) {
         0..=23 => Env::After(draw_poison(rng)),
         24..=32 => Env::Unwinding,
